@@ -83,6 +83,17 @@ def loop_call_later(eng, st, args, kwargs, node):
     return [(st, _schedule(st, st.ghost['now'] + delay, args[1], args[2]))]
 
 
+def handle_cancelled(eng, st, args, kwargs, node):
+    """self.delegate.cancelled(): asyncio.Handle.cancelled - true only for a handle that was cancelled; a live handle is not"""
+    T = st.env['self']
+    d = st.field(T, 'delegate')
+    if not isinstance(d, VObj):
+        return [eng.exc(st, 'AttributeError', node)]
+    c = fresh(Bool, 'cancelled')
+    st.assume(Implies(st.field(d, '__live'), Not(c)))
+    return [(st, c)]
+
+
 def loop_call_at(eng, st, args, kwargs, node):
     return [(st, _schedule(st, args[0], args[1], args[2]))]
 
@@ -137,7 +148,7 @@ def build(reg, src):
         "per-tick re-resolution of a named Klong callback is KGFnWrapper.__call__ (under contract in C09); here: a Klong function is wrapped in KGFnWrapper",
     ]
     reg.externals.update({'loop.time': loop_time, 'loop.call_soon': loop_call_soon, 'loop.call_later': loop_call_later,
-                          'loop.call_at': loop_call_at, 'self.delegate.cancel': handle_cancel})
+                          'loop.call_at': loop_call_at, 'self.delegate.cancel': handle_cancel, 'self.delegate.cancelled': handle_cancelled})
 
     # ---- KGTimerHandler.__init__
     def init_setup(eng, st):
@@ -282,8 +293,21 @@ def build(reg, src):
            cases=[('timer-stopped', tc_case_timer_none), ('timer-live', tc_case_timer_handle), ('not-a-timer', tc_case_other)],
            ensures=[tc_post], raises=[])
 
+    # the timer wraps a Klong callback in KGFnWrapper(klong, fn) WITHOUT a name: "the callback's current definition is used at every tick"
+    # rests on the wrapper resolving the name when it is made (contracts/c09.py) - re-verified here, not assumed
+    def wrapper_resolves_at_construction(ctx):
+        from pyvc.subverify import subverify
+        from contracts import c09
+        import replay.c09 as rp9
+        rows, eng2 = subverify(src, 'C15', c09, ['klongpy/types.py::KGFnWrapper.__init__'], replay=rp9.replay_wrapper,
+                               why='KGFnWrapper stores the name the function is bound to at construction')
+        ctx['eng'].verified['klongpy/types.py::KGFnWrapper.__init__'] = dict(sha=src.sha(src.find('klongpy/types.py::KGFnWrapper.__init__')), backend='z3 (contract of contracts/c09.py)')
+        return rows
+    wrapper_resolves_at_construction.__name__ = 'wrapper-resolves-at-construction'
+    reg.extra_checks.append(wrapper_resolves_at_construction)
+
     from replay import c15 as rp
-    reg.replays.append((r'_call_periodic\.run#post', rp.replay_run_self_cancel))
+    reg.replays.append((r'_call_periodic\.run#post|KGTimerHandler\.cancel', rp.replay_run_self_cancel))
     reg.replays.append((r'.', rp.replay_timer_generic))
 
 
